@@ -688,3 +688,17 @@ Qed.
 
 Theorem latex_balanced : forall e l, latex_guard e = true -> latex_toks e = Ok l -> latex_wf l.
 Proof. intros e l G H. apply good_latex_wf. eapply sp_fuel_good; eauto. Qed.
+
+(* the checker decides the specification *)
+Theorem latex_checker_iff : forall l, latex_wf_b l = true <-> latex_wf l.
+Proof. intro l. rewrite good_iff_b. apply good_latex_wf. Qed.
+
+(* the FiniteSet rule ("\left{" ... "\right}") violates the property: the guard is necessary *)
+Definition finiteset_witness : expr := EFN TC_FiniteSet [ENum (NInt 1); ENum (NInt 2)].
+Theorem latex_balanced_refuted :
+  exists l, latex_toks finiteset_witness = Ok l /\ ~ latex_wf l
+            /\ lrender l = [92; 108; 101; 102; 116; 123; 49; 32; 44; 32; 50; 92; 114; 105; 103; 104; 116; 125].
+Proof.
+  eexists. split; [vm_compute; reflexivity|]. split; [|vm_compute; reflexivity].
+  intro H. apply latex_checker_iff in H. vm_compute in H. discriminate.
+Qed.
